@@ -41,6 +41,10 @@ func (c *Ctx) checkScalar(s *edwards25519.Scalar, want *big.Int, what string, de
 func C07(c *Ctx) {
 	n := c.N(240000, 96000000) // each case is a batch of operations on one operand triple
 	classes := gen.ScalarClasses()
+	// a scalar object that lives through the whole run and is updated IN PLACE (same pointer,
+	// different values), with Invert applied to it again and again into another long-lived object
+	accS, accK := new(edwards25519.Scalar), big.NewInt(0)
+	invS := new(edwards25519.Scalar)
 	for i := int64(0); i < n; i++ {
 		if !c.Mine(i) {
 			continue
@@ -99,6 +103,15 @@ func C07(c *Ctx) {
 				one = big.NewInt(0)
 			}
 			c.checkScalar(w, one, "x*Invert(x)", det)
+		}
+		// long-lived objects
+		accS.MultiplyAdd(accS, sx, sy)
+		accK = ref.SAdd(ref.SMul(accK, x.K), y.K)
+		if c.Res.Cases%8 == 0 {
+			invS.Invert(accS)
+			ev("in-place-object")
+			c.checkScalar(accS, accK, "object updated in place", det)
+			c.checkScalar(invS, ref.SInv(accK), "Invert of an object updated in place", det)
 		}
 		// Equal
 		eq := sx.Equal(sy)
